@@ -327,6 +327,8 @@ pub struct Sim {
     pub no_taint: bool,
     pub pending_emits: Vec<(SEv, Mode, Option<u8>)>,
     pub stopped_at: Option<u64>,
+    pub stop_pending: bool,
+    pub started_at: Option<u64>,
 }
 
 pub fn silent_panics() {
@@ -405,6 +407,8 @@ impl Sim {
             no_taint: false,
             pending_emits: vec![],
             stopped_at: None,
+            stop_pending: false,
+            started_at: None,
         }
     }
 
@@ -599,7 +603,9 @@ impl Sim {
             }
             Step::Disconnect { client, side } => self.op_disconnect(*client as usize, *side),
             Step::ServerStop => {
-                if self.running {
+                // A stop is observed by the library only if it saw the server running in some frame.
+                let seen_running = self.started_at.map(|f| self.server_frames > f).unwrap_or(false);
+                if self.running && seen_running {
                     self.server.world_mut().resource_mut::<RepliconServer>().set_running(false);
                     self.running = false;
                     self.stopped_at = Some(self.server_frames);
@@ -610,10 +616,9 @@ impl Sim {
                     if inflight {
                         self.stats.probe("stop_with_messages_in_flight");
                     }
-                    // The server end of every link is gone.
-                    for c in 0..self.clients.len() {
-                        self.close_server_end(c);
-                    }
+                    // The library itself removes the client entities in the next frame (its `reset`);
+                    // the harness only stops carrying messages towards the stopped server.
+                    self.stop_pending = true;
                 }
             }
             Step::ServerStart => {
@@ -621,6 +626,7 @@ impl Sim {
                 if !self.running && frame_between {
                     self.server.world_mut().resource_mut::<RepliconServer>().set_running(true);
                     self.running = true;
+                    self.started_at = Some(self.server_frames);
                     if self.ever_started {
                         self.stats.fault("server_restart");
                     }
@@ -884,10 +890,16 @@ impl Sim {
     }
 
     fn close_server_end(&mut self, c: usize) {
+        self.close_server_end_opt(c, true)
+    }
+
+    fn close_server_end_opt(&mut self, c: usize, despawn: bool) {
         let Some(s) = self.clients[c].sess.as_mut() else { return };
         if let Some(ce) = s.ce.take() {
-            if let Ok(w) = self.server.world_mut().get_entity_mut(ce) {
-                w.despawn();
+            if despawn {
+                if let Ok(w) = self.server.world_mut().get_entity_mut(ce) {
+                    w.despawn();
+                }
             }
             // Client events that were still travelling are lost with the session.
             for e in self.cev.iter_mut().filter(|e| e.client == c && e.session == Some(s.id)) {
@@ -1176,12 +1188,24 @@ impl Sim {
             }
         }
         // The library despawns client entities itself after a stop.
+        let stop_frame = std::mem::take(&mut self.stop_pending);
         for c in 0..self.clients.len() {
             if let Some(ce) = self.clients[c].sess.as_ref().and_then(|s| s.ce) {
                 if self.server.world().get_entity(ce).is_err() {
-                    self.clients[c].sess.as_mut().unwrap().ce = None;
-                    self.maybe_teardown(c);
+                    self.close_server_end_opt(c, false);
+                } else if stop_frame {
+                    self.violate("C09", "client_entity_survived_stop", format!("client entity {ce} of client {c} still exists after the frame that followed the server stop"));
+                    self.close_server_end_opt(c, true);
                 }
+            }
+        }
+        // The server keeps nothing of closed sessions: every client entity belongs to an open session.
+        {
+            let known: Vec<Entity> = self.clients.iter().filter_map(|c| c.sess.as_ref().and_then(|s| s.ce)).collect();
+            let w = self.server.world();
+            let stray: Vec<Entity> = w.iter_entities().filter(|r| r.contains::<ConnectedClient>() && !known.contains(&r.id())).map(|r| r.id()).collect();
+            for e in stray {
+                self.violate("C09", "stray_client_entity", format!("server world holds client entity {e} that belongs to no open session"));
             }
         }
         for c in 0..self.clients.len() {
